@@ -147,6 +147,55 @@ def labels_chunk(_):
     return out
 
 
+LEMMAS = [
+    # (statement, label list, letters): the converter decodes without verifying, so any well-formed stream will do
+    ('( \\imp ph0 ph0 )', ['imp-is-pattern', 'proof-rule-prop-1'], 'AABZCD'),
+    ('( \\imp ph0 ( \\imp ph0 ph0 ) )', ['proof-rule-mp'], 'ABZC'),
+    ('( \\imp ph0 ph0 )', [], 'AZAB'),
+    ('( \\imp ph1 ( \\imp ph0 ph1 ) )', ['imp-is-pattern', 'proof-rule-prop-2', 'proof-rule-prop-1'], 'ABCDEZF'),
+    ('( \\imp ph0 ( \\imp ph1 ph0 ) )', ['proof-rule-prop-1'], 'ABC'),
+    ('( \\imp c0 c0 )', ['c0-is-pattern', 'imp-is-pattern'], 'AAB'),
+]
+
+
+def lemma_seq_chunk(seqs):
+    """several compressed proofs in ONE database: each is decoded as if it were alone (nothing carries over)"""
+    out = {'evals': 0, 'viol': []}
+    floats = ''.join(f'{v}-is-pattern $f #Pattern {v} $.\n' for v in ('ph0', 'ph1', 'ph2'))
+    for seq in seqs:
+        out['evals'] += 1
+        text = HEAD + floats + AXIOMS
+        for pos, li in enumerate(seq):
+            stmt, labs, letters = LEMMAS[li]
+            text += f'lem{pos} $p |- {stmt} $= ( {" ".join(labs)}{" " if labs else ""}) {letters} $.\n'
+        try:
+            conv = converter_for(text)
+        except Exception as ex:  # noqa: BLE001
+            out['viol'].append(({'part': 'lemma_sequence', 'kind': 'raises'}, {'sequence': list(seq)}, f'database with lemmas {seq}: {type(ex).__name__}: {str(ex)[:120]}'))
+            continue
+        for pos, li in enumerate(seq):
+            stmt, labs, letters = LEMMAS[li]
+            want = {}
+            i = 1
+            for v in ('ph0', 'ph1', 'ph2'):
+                if v in stmt.split():
+                    want[i] = f'{v}-is-pattern'
+                    i += 1
+            for l in labs:
+                want[i] = l
+                i += 1
+            wl = [0 if w == 'Z' else w for w in mmref.split_words(letters)]
+            try:
+                pr = conv.get_lemma_by_name(f'lem{pos}').proof
+                got = (dict(pr.labels), list(pr.applied_lemmas))
+            except Exception as ex:  # noqa: BLE001
+                got = f'{type(ex).__name__}: {str(ex)[:100]}'
+            if got != (want, wl):
+                out['viol'].append(({'part': 'lemma_sequence', 'kind': 'carry_over', 'position': pos}, {'sequence': list(seq)},
+                                    f'database with lemmas {seq}: lemma #{pos} decodes to {got}, alone it is {(want, wl)}'))
+    return out
+
+
 def seed_worker():
     """runs in a subprocess with a fixed PYTHONHASHSEED: prints what the converter numbers"""
     res = []
@@ -183,6 +232,11 @@ def replay(path: str) -> int:
     if sig.get('part') == 'numbers':
         n = sig.get('number', sig.get('first'))
         out = numbers_chunk((n, n + 1))
+        return 1 if out['viol'] else 0
+    if sig.get('part') == 'lemma_sequence':
+        out = lemma_seq_chunk([tuple(v['replay']['sequence'])])
+        for _, _, w in out['viol']:
+            print('still failing:', w)
         return 1 if out['viol'] else 0
     if sig.get('part') == 'strings':
         conv = bare_converter()
@@ -224,6 +278,24 @@ def main(argv=None) -> int:
         alpha = 'ATUYZ' if n > 3 else LETTERS
         merge(par.pmap(strings_chunk, [([p], n) for p in alpha]), 'str_')
     merge([labels_chunk(None)], 'lab_')
+    seqs = [t for k in ((1, 2, 3, 4) if thorough else (1, 2, 3)) for t in itertools.product(range(len(LEMMAS)), repeat=k)]
+    for out in par.pmap(lemma_seq_chunk, par.chunks(seqs, common.ncpu() * 2)):
+        agg['seq_evals'] = agg.get('seq_evals', 0) + out['evals']
+        for sig, rep, what in out['viol']:
+            chk.violation(sig, dict(rep, signature=sig), what)
+    # marked steps are numbered after the labels, in the order of their marks -- resolved when the proof is executed:
+    # every placement of at most two marks in a valid proof of ph0 -> ph0 (equal expressions may be marked twice)
+    from . import c16, mmgen  # noqa: F401
+    common.build_harness()
+    nodes = mmref.tree_size(c16.zplace_targets()[0][3])
+    subs = list(c16.mark_subsets(nodes, 2))
+    for out in par.pmap(c16.zplace_chunk, [(0, ch) for ch in par.chunks(subs, common.ncpu() * 2)]):
+        agg['mark_evals'] = agg.get('mark_evals', 0) + out['evals']
+        for sig, d, what in out['viol']:
+            sig = dict(sig, part='mark_placement')
+            chk.violation(sig, {'signature': sig, 'case': d}, what)
+    from . import pyrun
+    pyrun.cleanup()
     nseeds = 32 if thorough else 8
     seeds = [16 * chk.seed + i for i in range(nseeds)]
     orders_seen: dict[str, set] = {}
@@ -253,10 +325,11 @@ def main(argv=None) -> int:
                 chk.violation({'part': 'hashseed', 'k': k, 'kind': 'order'}, {'seed': seed, 'order': r['order'], 'k': k},
                               f'PYTHONHASHSEED={seed}, floating hypotheses declared as {r["order"]}: numbers map to {r["labels"]}, '
                               f'database order gives {want}')
-    chk.set('evaluations', agg.get('num_evals', 0) + agg.get('str_evals', 0) + agg.get('lab_evals', 0) + agg.get('seed_cases', 0))
-    chk.set('distinct_nontrivial', agg.get('num_evals', 0) // 2 + agg.get('str_valid', 0) + agg.get('lab_evals', 0))
+    chk.set('evaluations', agg.get('num_evals', 0) + agg.get('str_evals', 0) + agg.get('lab_evals', 0) + agg.get('seed_cases', 0)
+            + agg.get('seq_evals', 0) + agg.get('mark_evals', 0))
+    chk.set('distinct_nontrivial', agg.get('num_evals', 0) // 2 + agg.get('str_valid', 0) + agg.get('lab_evals', 0) + agg.get('seq_evals', 0) + agg.get('mark_evals', 0))
     chk.set('rule', 'every step number up to the bound (two whitespace layouts each), every letter string of the bounded alphabets '
-                    '(non-trivial: accepted by the reference decoder), every label list x layout, every declaration order x target x hash seed')
+                    '(non-trivial: accepted by the reference decoder), every label list x layout, every sequence of <=3/4 lemmas in one database, every placement of <=2 reuse marks in a valid proof, every declaration order x target x hash seed')
     chk.set('exhaustive', True)
     chk.set('detail', agg)
     chk.set('hash_seeds', seeds)
